@@ -56,56 +56,75 @@ func r141(c *Ctx) {
 	for _, w := range c.writesOfField(diskF) {
 		c.ob(rule, "write Buffer.diskBuffer <- "+fname(w.fn), w.instr.Pos(), fname(w.fn) == "(*server.Buffer).createSpill", false, "only createSpill sets the spill file")
 	}
-	// release
-	ds := c.method("Buffer", "discardSpill")
-	var closed, removed bool
-	for _, cs := range callsIn(ds) {
-		_, nn := nilKnowledge(cs.instr, matchFieldLoad(diskF))
-		switch calleeName(cs.common()) {
-		case "(*os.File).Close":
-			if isLoadOfField(cs.common().Args[0], diskF) && nn {
-				closed = true
+	// release: what Buffer.Close runs through closeOnce.Do (a closure, or a method value) closes the spill and removes it
+	// by name whenever it exists (discardSpill of the reference tree is de-anchored: expanded into that closure where
+	// it is called; as a method value it is analysed as the function it is)
+	bc := c.method("Buffer", "Close")
+	var ds *ssa.Function
+	okOnce := false
+	for _, cs := range callsToName(bc, "(*sync.Once).Do") {
+		var run *ssa.Function
+		if cl := closureFunc(cs.common().Args[1]); cl != nil {
+			run = cl
+		}
+		if mc, isMC := cs.common().Args[1].(*ssa.MakeClosure); isMC && len(mc.Bindings) == 1 && mc.Bindings[0] == ssa.Value(bc.Params[0]) {
+			if f, _ := mc.Fn.(*ssa.Function); f != nil && f.Synthetic != "" && f.Object() != nil {
+				// bound method value: the method itself
+				for _, cand := range c.proxyFuncs() {
+					if cand.Object() == f.Object() {
+						run = cand
+					}
+				}
 			}
-		case "os.Remove":
-			if call, ok := cs.common().Args[0].(*ssa.Call); ok && calleeName(call.Common()) == "(*os.File).Name" && isLoadOfField(call.Call.Args[0], diskF) && nn {
-				removed = true
+		}
+		if run != nil {
+			ds = run
+			_, skip := reach(bc, nil, isReturn, func(in ssa.Instruction) bool { return in == cs.instr })
+			okOnce = !skip
+		}
+	}
+	c.ob(rule, "Buffer.Close/discards-spill-exactly-once", bc.Pos(), okOnce, true, "Close must run the spill's release through closeOnce on every path")
+	if ds == nil {
+		return
+	}
+	var closed, removed bool
+	for _, f := range withAnon(ds) {
+		for _, cs := range callsIn(f) {
+			_, nn := nilKnowledge(cs.instr, matchFieldLoad(diskF))
+			switch calleeName(cs.common()) {
+			case "(*os.File).Close":
+				if isLoadOfField(cs.common().Args[0], diskF) && nn {
+					closed = true
+				}
+			case "os.Remove":
+				if call, ok := resolve(cs.common().Args[0]).(*ssa.Call); ok && calleeName(call.Common()) == "(*os.File).Name" && isLoadOfField(call.Call.Args[0], diskF) && nn {
+					removed = true
+				}
 			}
 		}
 	}
 	c.ob(rule, "discardSpill/closes-and-removes-the-file", ds.Pos(), closed && removed, true, "")
 	// the removal is unconditional once a spill exists
-	for _, cs := range callsToName(ds, "os.Remove") {
-		extra := 0
-		for _, ce := range dominatingConds(cs.instr.Block()) {
-			cm, ok := ce.asCmp()
-			if ok && cm.op == token.NEQ && isLoadOfField(cm.x, diskF) && isNilConst(cm.y) {
-				continue
+	for _, f := range withAnon(ds) {
+		for _, cs := range callsToName(f, "os.Remove") {
+			extra := 0
+			for _, ce := range dominatingConds(cs.instr.Block()) {
+				cm, ok := ce.asCmp()
+				if ok && cm.op == token.NEQ && isLoadOfField(cm.x, diskF) && isNilConst(cm.y) {
+					continue
+				}
+				extra++
 			}
-			extra++
-		}
-		c.ob(rule, "discardSpill/remove-unconditional", cs.pos(), extra == 0, true, "the spill must be removed whenever it exists")
-	}
-	bc := c.method("Buffer", "Close")
-	okOnce := false
-	for _, cs := range callsToName(bc, "(*sync.Once).Do") {
-		runsDiscard := false
-		if cl := closureFunc(cs.common().Args[1]); cl != nil && len(callsTo(cl, ds)) >= 1 {
-			runsDiscard = true
-		}
-		// the method value b.discardSpill itself
-		if mc, isMC := cs.common().Args[1].(*ssa.MakeClosure); isMC && len(mc.Bindings) == 1 && mc.Bindings[0] == ssa.Value(bc.Params[0]) {
-			if f, _ := mc.Fn.(*ssa.Function); f != nil && f.Synthetic != "" && f.Object() != nil && f.Object() == ds.Object() {
-				runsDiscard = true
-			}
-		}
-		if runsDiscard {
-			_, skip := reach(bc, nil, isReturn, func(in ssa.Instruction) bool { return in == cs.instr })
-			okOnce = !skip
+			c.ob(rule, "discardSpill/remove-unconditional", cs.pos(), extra == 0, true, "the spill must be removed whenever it exists")
 		}
 	}
-	c.ob(rule, "Buffer.Close/discards-spill-exactly-once", bc.Pos(), okOnce, true, "Close must run discardSpill through closeOnce on every path")
-	for _, u := range c.usesOfFunc(ds) {
-		c.ob(rule, "call discardSpill <- "+fname(outer(u.in)), u.instr.Pos(), fname(outer(u.in)) == "(*server.Buffer).Close", false, "")
+	// nobody else removes spill files
+	for _, fn := range c.proxyFuncs() {
+		for _, cs := range callsToName(fn, "os.Remove") {
+			if call, ok := resolve(cs.common().Args[0]).(*ssa.Call); ok && calleeName(call.Common()) == "(*os.File).Name" && isLoadOfField(call.Call.Args[0], diskF) {
+				c.ob(rule, "spill removed in "+fname(outer(fn)), cs.pos(), outer(fn) == outer(ds), false, "the spill file is released only by what Buffer.Close runs once")
+			}
+		}
 	}
 	// creators close or transfer
 	nbr := c.fn("NewBufferedReadCloser")
